@@ -316,6 +316,10 @@ func (s *SpokFile) findClosestMatch(task string) string {
 // typical usage will make start = $CWD and stop = $HOME.
 func Find(logger logger.Logger, start, stop string) (string, error) {
 	for {
+		if isAbove(start, stop) {
+			// Never look above 'stop'
+			return "", errors.New("No spokfile found")
+		}
 		logger.Debug("Looking in %s for spokfile", start)
 		entries, err := os.ReadDir(start)
 		if err != nil {
@@ -330,12 +334,24 @@ func Find(logger logger.Logger, start, stop string) (string, error) {
 					return "", fmt.Errorf("could not resolve '%s': %w", e.Name(), err)
 				}
 				return abs, nil
-			} else if start == stop {
-				return "", errors.New("No spokfile found")
 			}
 		}
-		start = filepath.Dir(start)
+		parent := filepath.Dir(start)
+		if start == stop || parent == start {
+			// Nothing at or below 'stop' (or the filesystem root) had one
+			return "", errors.New("No spokfile found")
+		}
+		start = parent
 	}
+}
+
+// isAbove reports whether dir is a strict ancestor of other.
+func isAbove(dir, other string) bool {
+	rel, err := filepath.Rel(dir, other)
+	if err != nil {
+		return false
+	}
+	return rel != "." && rel != ".." && !strings.HasPrefix(rel, ".."+string(filepath.Separator))
 }
 
 // New converts a parsed spok AST into a concrete File object,
